@@ -23,7 +23,7 @@ MANIFEST = {
     'technique': 'runtime monitoring: hostile-workload fuzzing with an exception-escape classifier (stage x class x raising frame)',
 }
 LEVEL = 'exploration'
-BUDGET = {'quick': 50, 'thorough': 420}
+BUDGET = {'quick': 100, 'thorough': 420}
 RULE = ('inputs from 6 streams (hostile substitution, exhaustive short strings per site, token soup, mutations, nesting, trivial); '
         'distinct by text hash; non-trivial = non-empty text; rendering is only exercised on accepted inputs, whose share is '
         'reported per stream')
